@@ -38,6 +38,10 @@ pub struct VrpMapCase {
     pub exploration_ratio: f64,
     pub ops: Vec<String>,
     pub op_seed: u64,
+    /// Some: instead of the pragmatic document a problem composed through vrp-core's public builders, the way the
+    /// crate's examples do it, with a goal of the user's own choice - {"demands": [..], "capacity": c, "vehicles": v,
+    /// "matrix": [..], "transport_feature": bool}
+    pub custom: Option<Value>,
 }
 
 impl VrpMapCase {
@@ -45,7 +49,7 @@ impl VrpMapCase {
         json!({ "kind": "vrpmap", "spec": self.spec.to_json(), "problem": self.problem, "matrices": self.matrices, "node_size": self.node_size,
             "elite_size": self.elite_size, "initial_size": self.initial_size, "selection_size": self.selection_size, "spread": self.spread,
             "distribution": self.distribution, "rebalance_memory": self.rebalance_memory, "exploration_ratio": self.exploration_ratio,
-            "ops": self.ops, "op_seed": self.op_seed })
+            "ops": self.ops, "op_seed": self.op_seed, "custom": self.custom })
     }
     pub fn from_json(v: &Value) -> Option<Self> {
         Some(VrpMapCase {
@@ -62,6 +66,7 @@ impl VrpMapCase {
             exploration_ratio: v.get("exploration_ratio")?.as_f64()?,
             ops: v.get("ops")?.as_array()?.iter().filter_map(|s| s.as_str().map(|s| s.to_string())).collect(),
             op_seed: v.get("op_seed")?.as_u64()?,
+            custom: v.get("custom").filter(|c| !c.is_null()).cloned(),
         })
     }
 }
@@ -97,7 +102,19 @@ pub fn make_case(seed: u64, tier: Tier) -> VrpMapCase {
             _ => format!("interrupted-search:{}", p.pick(&RUINS)),
         });
     }
+    // one case in four: a problem composed through the public builders (capacitated deliveries on a random matrix) whose
+    // goal has, in half of these cases, no transport feature at all - nothing then maintains a total cost of the tours
+    let custom = if p.chance(0.25) {
+        let n = p.usize(2, 9);
+        let size = n + 1;
+        let matrix: Vec<f64> = (0..size * size).map(|i| if i / size == i % size { 0. } else { p.range(1, 500) as f64 }).collect();
+        Some(json!({ "demands": (0..n).map(|_| p.range(1, 3)).collect::<Vec<_>>(), "capacity": p.range(2, 8), "vehicles": p.usize(1, 4), "matrix": matrix,
+            "transport_feature": p.chance(0.5) }))
+    } else {
+        None
+    };
     VrpMapCase {
+        custom,
         spec: RunSpec::from_seed(seed),
         problem: g.problem,
         matrices: g.matrices,
@@ -167,7 +184,11 @@ pub fn execute(case: &VrpMapCase) -> crate::kernel::run::RunOutcome<VrpMapOut> {
     let matrix_texts: Vec<String> = case.matrices.iter().map(|m| serde_json::to_string(m).unwrap()).collect();
     run_sim(&case.spec, || {
         let readers: Vec<BufReader<&[u8]>> = matrix_texts.iter().map(|m| BufReader::new(m.as_bytes())).collect();
-        let problem = match (BufReader::new(problem_text.as_bytes()), readers).read_pragmatic() {
+        let built = match case.custom.as_ref() {
+            Some(custom) => build_custom(custom).map_err(|e| format!("{e}")),
+            None => (BufReader::new(problem_text.as_bytes()), readers).read_pragmatic().map_err(|e| format!("{e}")),
+        };
+        let problem = match built {
             Ok(p) => Arc::new(p),
             Err(e) => {
                 let msg = format!("{e}");
@@ -314,6 +335,11 @@ pub fn record(case: &VrpMapCase) -> CaseRecord {
         rec.taint = true;
     }
     rec.count("real_individuals.cases", 1);
+    match case.custom.as_ref().map(|c| c["transport_feature"].as_bool().unwrap_or(true)) {
+        Some(true) => rec.count("real_individuals.problem.public_builders_with_transport_feature", 1),
+        Some(false) => rec.count("real_individuals.problem.public_builders_goal_without_transport_feature", 1),
+        None => rec.count("real_individuals.problem.pragmatic_document", 1),
+    }
     rec.count("scheduler.fork_joins", out.sched.fork_joins);
     rec.count("scheduler.nontrivial_fork_joins", out.sched.nontrivial);
     match &out.result {
@@ -368,4 +394,35 @@ pub fn replay(doc: &Value) -> CaseRecord {
         Some(case) => record(&case),
         None => CaseRecord { harness_error: Some("replay file is not a vrpmap case".into()), ..Default::default() },
     }
+}
+
+/// A capacitated delivery problem composed through vrp-core's public builders (see vrp-core/examples/cvrp.rs).
+fn build_custom(custom: &Value) -> Result<vrp_core::models::Problem, GenericError> {
+    use vrp_core::prelude::*;
+    let demands: Vec<i32> = custom["demands"].as_array().map(|a| a.iter().map(|d| d.as_i64().unwrap_or(1) as i32).collect()).unwrap_or_default();
+    let matrix: Vec<f64> = custom["matrix"].as_array().map(|a| a.iter().map(|d| d.as_f64().unwrap_or(1.)).collect()).unwrap_or_default();
+    let transport: Arc<dyn TransportCost> = Arc::new(SimpleTransportCost::new(matrix.clone(), matrix)?);
+    let jobs = demands
+        .iter()
+        .enumerate()
+        .map(|(idx, demand)| SingleBuilder::default().id(format!("job{idx}").as_str()).demand(Demand::delivery(*demand)).location(idx + 1)?.build_as_job())
+        .collect::<Result<Vec<_>, _>>()?;
+    let vehicles = (0..custom["vehicles"].as_u64().unwrap_or(1))
+        .map(|idx| {
+            VehicleBuilder::default()
+                .id(format!("v{idx}").as_str())
+                .add_detail(VehicleDetailBuilder::default().set_start_location(0).set_end_location(0).build()?)
+                .capacity(SingleDimLoad::new(custom["capacity"].as_i64().unwrap_or(4) as i32))
+                .build()
+        })
+        .collect::<Result<Vec<_>, _>>()?;
+    let minimize_unassigned = MinimizeUnassignedBuilder::new("min-unassigned").build()?;
+    let capacity = CapacityFeatureBuilder::<SingleDimLoad>::new("capacity").build()?;
+    let goal = if custom["transport_feature"].as_bool().unwrap_or(true) {
+        let transport_feature = TransportFeatureBuilder::new("min-distance").set_transport_cost(transport.clone()).set_time_constrained(false).build_minimize_distance()?;
+        GoalContextBuilder::with_features(&[minimize_unassigned, transport_feature, capacity])?.build()?
+    } else {
+        GoalContextBuilder::with_features(&[minimize_unassigned, capacity])?.build()?
+    };
+    ProblemBuilder::default().add_jobs(jobs.into_iter()).add_vehicles(vehicles.into_iter()).with_goal(goal).with_transport_cost(transport).build()
 }
